@@ -73,6 +73,13 @@ Proof.
   - constructor; [exact I|constructor].
 Qed.
 
+(* session messages use none of the in-place reads of Conn (TRaw): always in the receive domain *)
+Lemma ty_fits_session rcap ms : Forall msg_ok ms -> Forall (ty_fits rcap) (types_of (session_ops ms)).
+Proof.
+  intros H. rewrite types_of_session by exact H. apply Forall_forall. intros t Ht.
+  apply in_map_iff in Ht. destruct Ht as (m & <- & _). destruct m; exact I.
+Qed.
+
 Lemma encode_val_of_msg m : encode (val_of_msg m) = enc_msg m.
 Proof. destruct m; reflexivity. Qed.
 
@@ -92,7 +99,7 @@ Proof.
     f_equal. apply map_ext. intros m. apply encode_val_of_msg.
   - pose proof (roundtrip nbuf wcap rcap (session_ops ms) frags eofdata Hw Hr
                   (close_only_last_session ms) (ends_flushed_session ms)
-                  (in_domain_session ms Hok)) as RT.
+                  (in_domain_session ms Hok) (ty_fits_session rcap ms Hok)) as RT.
     cbv zeta in RT. destruct RT as (RT & _).
     rewrite types_of_session in RT by exact Hok.
     rewrite values_of_session in RT by exact Hok. exact RT.
